@@ -306,7 +306,7 @@ func (b *sb) unstall() {
 }
 
 var events = []string{"client-eof", "server-eof", "wfail-client-direct", "wfail-client-writer", "wfail-client-ack", "server-reset",
-	"malformed-c2s", "malformed-s2c", "badhpack-c2s", "badhpack-s2c", "closing"}
+	"malformed-c2s", "malformed-s2c", "badhpack-c2s", "badhpack-s2c", "streamerr-c2s", "streamerr-s2c", "closing"}
 
 func (b *sb) event(ev string) {
 	sid := uint32(99)
@@ -339,6 +339,10 @@ func (b *sb) event(ev string) {
 		b.add("env deliver c2s err : malformed")
 	case "malformed-s2c":
 		b.add("env deliver s2c err : malformed")
+	case "streamerr-c2s": // a stream-scoped framer error (http2.StreamError), not a connection error
+		b.add("env deliver c2s err : streamerr %d %s", sid, b.r.Pick("wupdate0", "prio-len", "rst-len"))
+	case "streamerr-s2c":
+		b.add("env deliver s2c err : streamerr %d %s", sid, b.r.Pick("wupdate0", "prio-len", "rst-len"))
 	case "badhpack-c2s":
 		b.add("env deliver c2s bad : badhpack %d", sid)
 	case "badhpack-s2c":
@@ -358,7 +362,7 @@ func (b *sb) trailing(ev string) {
 	}
 	d := "s2c"
 	switch ev {
-	case "server-eof", "server-reset", "malformed-s2c", "badhpack-s2c":
+	case "server-eof", "server-reset", "malformed-s2c", "badhpack-s2c", "streamerr-s2c":
 		d = "c2s"
 	}
 	if d == "c2s" && b.stalled {
